@@ -114,6 +114,83 @@ def mutate(rng, data):
     return bytes(data)
 
 
+HOSTILE_TLS = ["plain_http", "random", "connect_close", "half_hello_reset", "hello_then_garbage"]
+
+
+def real_tls(wk, eager):
+    """real process with TLS listeners: peers that do not complete the handshake (plain HTTP on the TLS port, random
+    bytes, connect-and-close, half a ClientHello then a reset) must not take the worker down; one trace per peer"""
+    import socket
+    import struct
+    import time
+    from drivers import realproc as rp
+    s = rp.Server(wk, workers=1, threads=2 if wk == "gthread" else None, tls=True,
+                  args=["--keep-alive", "1"] + (["--do-handshake-on-connect"] if eager else []), name="c05tls")
+    out = []
+    try:
+        s.start()
+        wp = s.wait_booted(1)
+        hello = bytes.fromhex("16030100c8010000c40303") + bytes(range(60))
+        for peer in HOSTILE_TLS:
+            c = s.connect(timeout=4, raw=True)
+            got = b""
+            try:
+                if peer == "plain_http":
+                    c.sendall(b"GET /pid HTTP/1.1\r\nHost: h\r\n\r\n")
+                elif peer == "random":
+                    c.sendall(bytes((i * 37 + 11) % 256 for i in range(300)))
+                elif peer == "half_hello_reset":
+                    c.sendall(hello[:40])
+                    time.sleep(0.2)
+                    c.setsockopt(socket.SOL_SOCKET, socket.SO_LINGER, struct.pack("ii", 1, 0))
+                elif peer == "hello_then_garbage":
+                    c.sendall(hello)
+                    time.sleep(0.1)
+                    c.sendall(b"\x00" * 200)
+                if peer not in ("connect_close", "half_hello_reset"):
+                    c.settimeout(2.0)
+                    try:
+                        while True:
+                            d = c.recv(65536)
+                            if not d:
+                                break
+                            got += d
+                    except OSError:
+                        pass
+            except OSError:
+                pass
+            finally:
+                c.close()
+            time.sleep(0.4)
+            alive = [p for p in wp if rp.proc_state(p) not in (None, "Z")]
+            try:
+                st2, body2, info2 = s.get("/pid", timeout=5)
+                next_ok = st2 == 200 and rp.parse_ident(body2)[0] in wp
+            except OSError:
+                next_ok = False
+            ev = []
+            # anything the peer got back in clear must be a well-formed error reply that closes
+            if got.startswith(b"HTTP/"):
+                for x in oracle_wire.read_responses(got, True, []):
+                    if not x.get("wellformed"):
+                        ev.append({"e": "resp", "kind": "junk", "status": 0, "close": False, "clok": False})
+                    else:
+                        clok = x["cl"] >= 0 and len(x["body"]) == x["cl"]
+                        ev.append({"e": "resp", "kind": "error" if x["status"] >= 400 else "app", "status": x["status"],
+                                   "close": x["conn"] == "close", "clok": bool(clok)})
+            ev.append({"e": "end", "closed": True, "escaped": False, "appcalls": 0, "appfail": 0, "alive": len(alive) == len(wp),
+                       "next_ok": bool(next_ok), "sent_requests": -1})
+            out.append(({"ms": [], "cut": 0, "oracle": 0, "fault": "none", "ev": ev},
+                        {"kind": wk, "bytes": "tls peer: " + peer, "cuts": [], "fault": "tls-" + peer, "fault_at": 0,
+                         "src": "real-tls eager=%s" % eager, "escaped": None, "wire": got[:80].decode("latin-1"),
+                         "log": s.errlog()[-300:] if len(alive) != len(wp) or not next_ok else ""}))
+            if len(alive) != len(wp):
+                wp = s.wait_booted(1)
+        return out
+    finally:
+        s.cleanup()
+
+
 def real_keepalive(wk, tail):
     """real process, keep-alive on: one complete request, then silence or a truncated request for longer than the
     keep-alive time; the server must close without sending anything that was not asked for"""
@@ -257,18 +334,26 @@ def c05(ctx):
         traces.append(t)
         metas.append(m)
     ctx.coverage["real_process_keepalive_runs"] = len(plan)
+    # 7. real processes with TLS listeners and peers that do not complete the handshake
+    tplan = [("sync", True), ("sync", False), ("gthread", True), ("gevent", True)] if ctx.quick else \
+        [(wk, e) for wk in ("sync", "gthread", "gevent", "eventlet") for e in (True, False)]
+    for res in _parallel(tplan, lambda a, i: real_tls(a[0], a[1])):
+        for t, m in res:
+            traces.append(t)
+            metas.append(m)
+    ctx.coverage["real_process_tls_peers"] = len(tplan) * len(HOSTILE_TLS)
     verdicts, stats = tlc.validate_batch("ConnTrace", "ConnTrace.cfg", traces, name="ConnTrace_C05", chunk=4000)
     ctx.add_traces(len(traces), stats)
     for t, m, (v, step) in zip(traces, metas, verdicts):
         if v == "ok":
             continue
-        sig = "C05/%s/wk=%s/fault=%s" % (v, m["kind"], t["fault"])
+        sig = "C05/%s/wk=%s/fault=%s" % (v, m["kind"], m["fault"] if str(m.get("fault", "")).startswith("tls-") else t["fault"])
         if m["escaped"]:
             sig += "/exc=%s" % m["escaped"]
         ctx.violation(sig, "%s: %s" % (v, json.dumps(m)[:500]), {"trace": t, "meta": m})
     for t, m in list(zip(traces, metas))[:1] + list(zip(traces, metas))[-2:]:
         ctx.sample({"bytes": m["bytes"][:100], "worker": m["kind"], "fault": m["fault"], "events": t["ev"]})
-    ctx.assumptions += ["scripted in-process sockets; TLS handshake errors are modelled in specs/Conn.tla but not run",
+    ctx.assumptions += ["scripted in-process sockets; TLS handshake failures are run against real processes (lazy and on-connect handshake)",
                         "the application reads its whole input and answers 200 with Content-Length"]
 
 
